@@ -59,7 +59,7 @@ def main():
         "engines": [{"name": "detsim", "path": "/verif/bin/check", "serves_properties": sorted(done), "kind_free_text": "deterministic simulation with fault injection: simrt (seeded scheduler over testing/synctest), yieldgen (source instrumenter), simdisk (simulated storage: durability model, error/short-write/stall faults, crash images), independent decoders and seam monitors, reference models, shrinker, replay"}],
         "checks": checks,
         "not_applicable": na,
-        "notes": "Genuine defects found by the checks were repaired in /repo as 'fix:' commits; they are listed as fixed entries in /verif/known_findings.json (fixed entries suppress nothing). See DESIGN.md §8.",
+        "notes": "Genuine defects found by the checks were repaired in /repo as 'fix:' commits; they are listed as fixed entries in /verif/known_findings.json (fixed entries suppress nothing). See DESIGN.md §8. The quick tier explores a fixed number of seeds per property (the same executions and the same evidence counts on any machine; wall time 20-50 s on 16 idle cores, its 1500 s wall clock bound is a watchdog that exits 2); the thorough tier explores for 15 min of wall clock. See DESIGN.md §12.7.",
     }
     json.dump(m, open("/verif/MANIFEST.json", "w"), indent=1)
 
